@@ -322,6 +322,7 @@ async fn create_hostile(node: &Node, parent: &Block, ts: u64, creator: u64, txs:
     Ok(b)
 }
 
+pub const HOSTILE_FORK: [&str; 2] = ["second-block-spends-never-created-output", "second-block-spends-output-spent-below-fork-point"];
 pub const HOSTILE: [&str; 3] = ["control", "output-spent-by-two-transactions", "output-spent-by-transaction-and-rebroadcast"];
 
 /// in-window spendable value, number of such outputs, and the supply of the node, all in u128
@@ -602,8 +603,9 @@ impl Sim {
             }
         }
         // u128 supply of the real node whenever the tip moved (also after a caught panic: the block is already wound)
+        // (also when the tip did not move: a rejected block or a side block must leave the supply where it was)
         let after_tip = self.nodes[n].tip().map(|t| t.1);
-        if after_tip.is_some() && after_tip != before_tip {
+        if after_tip.is_some() {
             let th = after_tip.unwrap();
             if let Some((s, c, sup)) = node_supply(&self.nodes[n], self.gp) {
                 if cls != "panic" {
@@ -618,7 +620,7 @@ impl Sim {
                     emit("H", "supply:equal-to-issuance");
                 }
             }
-            if before_tip.is_some() && Some(b.previous_block_hash) != before_tip && cls == "added_lc" {
+            if after_tip != before_tip && before_tip.is_some() && Some(b.previous_block_hash) != before_tip && cls == "added_lc" {
                 emit("H", "reorg");
             }
         }
@@ -906,6 +908,108 @@ impl Sim {
             }
         }
         self.dead[1] = true;
+    }
+
+    /// A hostile fork of two blocks against a node whose own chain is one block shorter than the fork: node 0 extends the
+    /// common tip by block A; node 1 extends it by the honest block B1 and a hostile producer puts B2 on B1, whose only
+    /// user transaction spends an output that does not exist (never created, or spent below the fork point). Node 0 is
+    /// given B1 (side block) and B2 (the fork is longer: A is unwound, B1 wound, B2 fails, B1 unwound, A wound back).
+    /// The supply and the spendable outputs of node 0 must be what they were.
+    async fn hostile_fork(&mut self, variant: usize, emit: &mut dyn FnMut(&str, &str), ctx: &serde_json::Value) {
+        let name = HOSTILE_FORK[variant];
+        if self.dead[0] || self.dead[1] || self.stake > 0 {
+            emit("H", &format!("hostile-fork:{}:not-applicable", name));
+            return;
+        }
+        let tip0 = self.nodes[0].tip().map(|t| t.1);
+        if tip0.is_none() || tip0 != self.nodes[1].tip().map(|t| t.1) {
+            emit("H", &format!("hostile-fork:{}:not-applicable", name));
+            return;
+        }
+        // an input that cannot be spent on the fork
+        let common = self.nodes[0].blockchain.get_latest_block().unwrap().clone();
+        let fake: Option<Utxo> = match name {
+            "second-block-spends-never-created-output" => {
+                let mut sl = Slip::default();
+                sl.public_key = key(2).0;
+                sl.amount = 777_000 + common.id;
+                sl.block_id = common.id; // inside the window
+                sl.tx_ordinal = 250;
+                sl.slip_index = 0;
+                sl.slip_type = SlipType::Normal;
+                sl.utxoset_key = sl.get_utxoset_key();
+                Some(Utxo { slip: sl, owner: 2 })
+            }
+            _ => {
+                // an output consumed by a transaction of the common chain, inside the window
+                let mut found = None;
+                for h in self.chain_of(&common.hash) {
+                    let b = &self.blocks[&h];
+                    if b.id + self.gp <= common.id + 2 {
+                        continue;
+                    }
+                    for t in b.transactions.iter().filter(|t| t.transaction_type == TransactionType::Normal) {
+                        if let Some(sl) = t.from.iter().find(|sl| sl.amount > 0 && sl.slip_type == SlipType::Normal && sl.block_id + self.gp > common.id + 2) {
+                            let o = (1..NKEYS).find(|k| key(*k).0 == sl.public_key);
+                            if let Some(o) = o {
+                                let mut sl = sl.clone();
+                                sl.utxoset_key = sl.get_utxoset_key();
+                                found = Some(Utxo { slip: sl, owner: o });
+                            }
+                        }
+                    }
+                }
+                found
+            }
+        };
+        let Some(fake) = fake else {
+            emit("H", &format!("hostile-fork:{}:not-applicable", name));
+            return;
+        };
+        if self.nodes[0].blockchain.utxoset.get(&fake.slip.utxoset_key).copied().unwrap_or(false) {
+            emit("H", &format!("hostile-fork:{}:not-applicable", name));
+            return;
+        }
+        let a = self.produce(0, Some(false), None, false, 0, 260, emit, ctx).await;
+        let b1 = self.produce(1, Some(true), None, false, 0, 300, emit, ctx).await;
+        let (Some(_a), Some(b1)) = (a, b1) else {
+            emit("H", &format!("hostile-fork:{}:not-applicable", name));
+            return;
+        };
+        if self.last_own != "added_lc" || self.nodes[0].tip().map(|t| t.0) != Some(common.id + 1) {
+            emit("H", &format!("hostile-fork:{}:not-applicable", name));
+            return;
+        }
+        let parent = self.blocks[&b1].clone();
+        let (o, amt) = (fake.owner, fake.slip.amount);
+        let tx = self.make_value_tx(vec![fake.clone()], vec![(o, amt)], (parent.id + 1) * 1000 + 905);
+        let want_gt = !self.density_ok(&parent.hash, false);
+        let gt = if want_gt { Some(gt_tx(&mut self.rng, &parent, key(3).0, 3)) } else { None };
+        let b2 = match create_hostile(&self.nodes[1], &parent, parent.timestamp + 260, 2, vec![tx], gt).await {
+            Ok(b) => b,
+            Err(e) => {
+                emit("H", &format!("hostile-fork:{}:create-{}", name, if e.starts_with("panic") { "panic" } else { "error" }));
+                return;
+            }
+        };
+        self.blocks.insert(b2.hash, b2.clone());
+        let before = node_supply(&self.nodes[0], self.gp);
+        let spendable_before: usize = self.nodes[0].blockchain.utxoset.iter().filter(|(_, v)| **v).count();
+        let c1 = self.deliver(0, &b1, emit, ctx).await;
+        let c2 = self.deliver(0, &b2.hash, emit, ctx).await;
+        emit("H", &format!("hostile-fork:{}:{}+{}", name, c1, c2));
+        if !self.dead[0] {
+            let after = node_supply(&self.nodes[0], self.gp);
+            let spendable_after: usize = self.nodes[0].blockchain.utxoset.iter().filter(|(_, v)| **v).count();
+            let fake_spendable = self.nodes[0].blockchain.utxoset.get(&fake.slip.utxoset_key).copied().unwrap_or(false);
+            let on_chain = self.nodes[0].tip().map(|t| t.1) == Some(b2.hash);
+            if on_chain {
+                emit("M", &format!("C02/block-spending-nonexistent-output-accepted/{}\tthe node moved its tip to a block (id {}) that spends an output which does not exist on that chain\t{}", name, b2.id, serde_json::json!({"history": ctx, "variant": name, "block_id": b2.id})));
+            } else if before.map(|x| x.2) != after.map(|x| x.2) || spendable_before != spendable_after || fake_spendable {
+                emit("M", &format!("C02/supply-changed-by-rejected-fork/{}\tafter a fork was rejected ({} then {}) the node's supply is {:?} (before: {:?}), spendable outputs {} (before: {}), the made-up input spendable: {}\t{}", name, c1, c2, after.map(|x| x.2), before.map(|x| x.2), spendable_after, spendable_before, fake_spendable, serde_json::json!({"history": ctx, "variant": name, "block_id": b2.id})));
+            }
+        }
+        self.dead[0] = true;
     }
 
     /// every spendable value output of node `n`, in or out of the window
@@ -1220,12 +1324,15 @@ pub async fn run_history(spec: &HistSpec, index: usize, emit: &mut dyn FnMut(&st
             if !sim.dead[0] && !sim.dead[1] && sim.last_own != "invalid" {
                 let same_tip = sim.nodes[0].tip().map(|t| t.1) == sim.nodes[1].tip().map(|t| t.1);
                 if same_tip {
-                    let k = if spec.kind == "hostile" { TAMPER_FIELDS.len() + index % HOSTILE.len() } else { index % (TAMPER_FIELDS.len() + 2 * HOSTILE.len()) };
-                    if k < TAMPER_FIELDS.len() {
+                    let nh = HOSTILE.len() + HOSTILE_FORK.len();
+                    let k = if spec.kind == "hostile" { TAMPER_FIELDS.len() + index % nh } else { index % (TAMPER_FIELDS.len() + 2 * nh) };
+                    if k >= TAMPER_FIELDS.len() && (k - TAMPER_FIELDS.len()) % nh >= HOSTILE.len() {
+                        sim.hostile_fork((k - TAMPER_FIELDS.len()) % nh - HOSTILE.len(), emit, &ctx).await;
+                    } else if k < TAMPER_FIELDS.len() {
                         sim.tamper_next = Some(k);
                         sim.produce(0, Some(true), None, false, fee_profile, 260, emit, &ctx).await;
                     } else {
-                        sim.hostile((k - TAMPER_FIELDS.len()) % HOSTILE.len(), emit, &ctx).await;
+                        sim.hostile((k - TAMPER_FIELDS.len()) % nh, emit, &ctx).await;
                     }
                 }
             }
